@@ -1,12 +1,15 @@
 /-!
 # Keyed — executable model of tachys' keyed list (`<For>` / `keyed()`), core Lean only
 
-Mirrors /repo/tachys/src/view/keyed.rs **as it is** (including the `move_in_dom` elision of
-`diff`, which is wrong for some inputs: finding F-C11-1).
+Mirrors /repo/tachys/src/view/keyed.rs **as it is**: `diff` / `group_adjacent_moves` are the functions
+after the repair of finding F-C11-1 (/verif/hooks/fix-c11-1.patch: a moved item may skip its DOM move
+only if it does not overtake another item that keeps its place; grouping keeps the `move_in_dom` flag).
+The functions before the repair are kept as `diffOld` / `groupAdjacentMovesOld` / `rebuildOld`; the
+theorems about them (refutation witness, exact failure class) stay as regression theorems.
 
 | here                         | Rust (tachys/src/view/keyed.rs unless noted)                               |
 |------------------------------|-----------------------------------------------------------------------------|
-| `diff`, `diffStep`           | `fn diff` (the `for index in 0..max_len` loop body is `diffStep`)           |
+| `diff`, `diffStep`, `nextUnmoved` | `fn diff` (the `for index in 0..max_len` loop body is `diffStep`; `next_unmoved` is the cached value of `nextUnmoved`) |
 | `groupAdjacentMoves`         | `fn group_adjacent_moves` (`prev` / `new_moved` loop = `groupLoop`)          |
 | `unpackMoves`, `unpackLoop`  | `fn unpack_moves` (loop counter `i`, the three peekable iterators)           |
 | `applyDiff` and its phases   | `fn apply_diff` (clear / removals / move out / resize / move in / additions / drain) |
@@ -62,7 +65,7 @@ def groupLoop : List DiffOpMove → Option DiffOpMove → List DiffOpMove → Li
   | [], some p, out => out ++ [p]
   | m :: ms, none, out => groupLoop ms (some m) out
   | m :: ms, some p, out =>
-    if m.from_ == p.from_ + p.len && m.to_ == p.to_ + p.len then
+    if m.from_ == p.from_ + p.len && m.to_ == p.to_ + p.len && m.moveInDom == p.moveInDom then
       groupLoop ms (some { p with len := p.len + 1 }) out
     else
       groupLoop ms (some m) (out ++ [p])
@@ -70,15 +73,97 @@ def groupLoop : List DiffOpMove → Option DiffOpMove → List DiffOpMove → Li
 def groupAdjacentMoves (moved : List DiffOpMove) : List DiffOpMove :=
   groupLoop moved none []
 
-/-- the three vectors `diff` pushes to -/
+def sumLens (ms : List DiffOpMove) : Nat := (ms.map (·.len)).sum
+
+/-- the three vectors `diff` pushes to, and `last_kept` -/
 structure DiffAcc where
+  removed : List Nat := []
+  moved : List DiffOpMove := []
+  added : List DiffOpAdd := []
+  /-- index in `to` of the last item so far that keeps its place in the DOM -/
+  lastKept : Option Nat := none
+  deriving Repr
+
+/-- both lists hold the same item at index `j` -/
+def unmovedAt (frm to : List Key) (j : Nat) : Bool :=
+  match frm[j]?, to[j]? with
+  | some a, some b => a == b
+  | _, _ => false
+
+/-- the value of `next_unmoved` after the `while` loop run at `index`: the smallest index above
+`index` (and below `min_len`) at which both lists hold the same item. `fuel` = indices left to scan. -/
+def nextUnmovedFrom (frm to : List Key) : Nat → Nat → Option Nat
+  | 0, _ => none
+  | fuel + 1, j => if unmovedAt frm to j then some j else nextUnmovedFrom frm to fuel (j + 1)
+
+def nextUnmoved (frm to : List Key) (index : Nat) : Option Nat :=
+  nextUnmovedFrom frm to (min frm.length to.length - (index + 1)) (index + 1)
+
+/-- body of `for index in 0..max_len` -/
+def diffStep (frm to : List Key) (acc : DiffAcc) (index : Nat) : DiffAcc :=
+  let fromItem := frm[index]?
+  let toItem := to[index]?
+  if fromItem == toItem then { acc with lastKept := some index }
+  else
+    let removed :=
+      match fromItem with
+      | some f => if !to.contains f then acc.removed ++ [index] else acc.removed
+      | none => acc.removed
+    let added :=
+      match toItem with
+      | some t => if !frm.contains t then acc.added ++ [{ at_ := index, mode := .normal }] else acc.added
+      | none => acc.added
+    match fromItem with
+    | some f =>
+      match to.idxOf? f with
+      | some tix =>
+        let movesForwardBy : Int := (tix : Int) - (index : Int)
+        let moveInDom0 := movesForwardBy != (added.length : Int) - (removed.length : Int)
+        -- `if !move_in_dom { … overtakes … }`
+        let overtakes :=
+          (match acc.lastKept with | some last => decide (tix < last) | none => false) ||
+          (match nextUnmoved frm to index with | some j => decide (j < tix) | none => false)
+        let moveInDom := moveInDom0 || overtakes
+        { removed := removed, added := added,
+          moved := acc.moved ++ [{ from_ := index, len := 1, to_ := tix, moveInDom := moveInDom }],
+          lastKept := if moveInDom then acc.lastKept else some tix }
+      | none => { acc with removed := removed, added := added }
+    | none => { acc with removed := removed, added := added }
+
+def diff (frm to : List Key) : Diff :=
+  if frm.isEmpty && to.isEmpty then {}
+  else if to.isEmpty then { clear := true }
+  else if frm.isEmpty then
+    { added := (List.range to.length).map fun i => { at_ := i, mode := .append } }
+  else
+    let acc := (List.range (max frm.length to.length)).foldl (diffStep frm to) {}
+    let moved := groupAdjacentMoves acc.moved
+    { removed := acc.removed, itemsToMove := sumLens moved, moved := moved, added := acc.added,
+      clear := false }
+
+/-- BEFORE the repair: `prev` / `new_moved` loop of `group_adjacent_moves` -/
+def groupLoopOld : List DiffOpMove → Option DiffOpMove → List DiffOpMove → List DiffOpMove
+  | [], none, out => out
+  | [], some p, out => out ++ [p]
+  | m :: ms, none, out => groupLoopOld ms (some m) out
+  | m :: ms, some p, out =>
+    if m.from_ == p.from_ + p.len && m.to_ == p.to_ + p.len then
+      groupLoopOld ms (some { p with len := p.len + 1 }) out
+    else
+      groupLoopOld ms (some m) (out ++ [p])
+
+def groupAdjacentMovesOld (moved : List DiffOpMove) : List DiffOpMove :=
+  groupLoopOld moved none []
+
+/-- the three vectors `diff` pushes to -/
+structure DiffAccOld where
   removed : List Nat := []
   moved : List DiffOpMove := []
   added : List DiffOpAdd := []
   deriving Repr
 
-/-- body of `for index in 0..max_len` -/
-def diffStep (frm to : List Key) (acc : DiffAcc) (index : Nat) : DiffAcc :=
+/-- BEFORE the repair: body of `for index in 0..max_len` -/
+def diffStepOld (frm to : List Key) (acc : DiffAccOld) (index : Nat) : DiffAccOld :=
   let fromItem := frm[index]?
   let toItem := to[index]?
   if fromItem != toItem then
@@ -103,16 +188,14 @@ def diffStep (frm to : List Key) (acc : DiffAcc) (index : Nat) : DiffAcc :=
     { removed := removed, moved := moved, added := added }
   else acc
 
-def sumLens (ms : List DiffOpMove) : Nat := (ms.map (·.len)).sum
-
-def diff (frm to : List Key) : Diff :=
+def diffOld (frm to : List Key) : Diff :=
   if frm.isEmpty && to.isEmpty then {}
   else if to.isEmpty then { clear := true }
   else if frm.isEmpty then
     { added := (List.range to.length).map fun i => { at_ := i, mode := .append } }
   else
-    let acc := (List.range (max frm.length to.length)).foldl (diffStep frm to) {}
-    let moved := groupAdjacentMoves acc.moved
+    let acc := (List.range (max frm.length to.length)).foldl (diffStepOld frm to) {}
+    let moved := groupAdjacentMovesOld acc.moved
     { removed := acc.removed, itemsToMove := sumLens moved, moved := moved, added := acc.added,
       clear := false }
 
@@ -349,25 +432,32 @@ def KState.insertBeforeThis (s : KState) (child : NodeId) : KState × Bool :=
   | some none => (s, false)
   | none => ({ s with w := { s.w with kids := insertBefore s.w.kids child (some s.marker) } }, true)
 
-/-- `Keyed::rebuild(state)`; the log is per call -/
-def rebuild (s : KState) (to : List Key) : KState :=
-  let w := applyDiff s.bs s.marker (diff s.hashed to) to { s.w with log := {} }
+/-- `Keyed::rebuild(state)` with the diff function as a parameter; the log is per call -/
+def rebuildWith (D : List Key → List Key → Diff) (s : KState) (to : List Key) : KState :=
+  let w := applyDiff s.bs s.marker (D s.hashed to) to { s.w with log := {} }
   { s with hashed := to, w := w }
+
+/-- `Keyed::rebuild(state)` -/
+def rebuild (s : KState) (to : List Key) : KState := rebuildWith diff s to
+
+/-- `Keyed::rebuild(state)` before the repair of F-C11-1 -/
+def rebuildOld (s : KState) (to : List Key) : KState := rebuildWith diffOld s to
 
 /-! ## the decidable class of transitions on which the final DOM order is right -/
 
-/-- keys of the items that `apply_diff` re-inserts in the DOM (single moves with `move_in_dom`) -/
-def domMovedKeys (frm to : List Key) : List Key :=
-  ((unpackMoves (diff frm to)).1.filter (·.moveInDom)).filterMap fun m => frm[m.from_]?
+/-- keys of the items that `apply_diff` re-inserts in the DOM (single moves with `move_in_dom`),
+for the diff function `D` -/
+def domMovedKeys (D : List Key → List Key → Diff) (frm to : List Key) : List Key :=
+  ((unpackMoves (D frm to)).1.filter (·.moveInDom)).filterMap fun m => frm[m.from_]?
 
 /-- retained and not re-inserted: in place, or moved in storage only -/
-def settled (frm to : List Key) (k : Key) : Bool :=
-  frm.contains k && to.contains k && !(domMovedKeys frm to).contains k
+def settled (D : List Key → List Key → Diff) (frm to : List Key) (k : Key) : Bool :=
+  frm.contains k && to.contains k && !(domMovedKeys D frm to).contains k
 
 /-- on the items that are neither removed nor DOM-moved, old order = new order
 (old index ↦ new index is strictly monotone) -/
-def settledMonotone (frm to : List Key) : Bool :=
-  frm.filter (settled frm to) == to.filter (settled frm to)
+def settledMonotone (D : List Key → List Key → Diff) (frm to : List Key) : Bool :=
+  frm.filter (settled D frm to) == to.filter (settled D frm to)
 
 /-- the nodes of the mounted items, in storage order -/
 def blocksOf (storage : List (Option Item)) : List NodeId :=
